@@ -63,8 +63,13 @@ def cases(tier, seed):
         else:
             n = len(table)
             ncols = rng.randint(4 if has_x else 3, 7)
-            cols = rng.sample(range(2, ncols), 2 if has_x else 1)
-            lay = dict(zip(["count"] + (["x"] if has_x else []), cols))
+            if F_h("move_ids", 2) == 0:
+                # the ID columns relocated, too (--field bin1_id=<col> --field bin2_id=<col>)
+                cols = rng.sample(range(ncols), 4 if has_x else 3)
+                lay = dict(zip(["bin1_id", "bin2_id", "count"] + (["x"] if has_x else []), cols))
+            else:
+                cols = rng.sample(range(2, ncols), 2 if has_x else 1)
+                lay = dict(zip(["count"] + (["x"] if has_x else []), cols))
             keys = rng.sample([(i, j) for i in range(n) for j in range(i, n)], rng.randint(1, min(6, n * (n + 1) // 2)))
             px = [[i, j, rng.randint(1, 9)] for i, j in sorted(keys)]
             xv = [rng.randint(1, 9) for _ in px]
@@ -78,7 +83,14 @@ def cases(tier, seed):
         F_h = gen.feat(103, h)          # independent feature choices per case (gen.feat)
         table = tables[F_h("len_tables@75", len(tables))]
         mode = "symm" if F_h("m2@76", 2) else "square"
-        yield "tx.roundtrip", {"table": table, "mode": mode, "px": gen.random_store(rng, len(table), mode, maxval=9),
+        extra = {"names": ["usual", "unsorted"][F_h("names", 2)]}
+        if F_h("bins_spec", 2) == 0:
+            # BINS as <chromsizes>:<bin size>: a fixed-width table
+            lens = [[10, 7], [6, 6, 4], [9], [5, 12, 3, 8]][F_h("lens", 4)]
+            bsz = [1, 2, 3][F_h("bsz", 3)]
+            table = gen.binnify(lens, bsz)
+            extra.update({"bins_spec": "chromsizes", "binsize": bsz})
+        yield "tx.roundtrip", {"table": table, "mode": mode, "px": gen.random_store(rng, len(table), mode, maxval=9), **extra,
                                "fmt": "coo" if F_h("m4@78", 4) < 2 else "bg2", "one_based": F_h("m3@78", 3) == 0,
                                "chunk": rng.choice([1, 3, 10 ** 6]), "chunk2": rng.choice([1, 2, 1000]),
                                "max_merge": rng.choice([1, 2, 3, 200]), **({"at": "/resolutions/10"} if F_h("m5@80", 5) == 2 else {})}
